@@ -307,6 +307,14 @@ def main():
         print('  obligation=%s args=%s' % (obn, args))
         print('  detail=%s' % json.dumps(rr)[:1200])
         rc = 1
+    remaining = []
+    for d in direct_violations:
+        kf = [f for f in open_known if f.get('obligation') == d['name'] and f.get('direct') and f.get('key') == (d.get('violation') or {}).get('key')]
+        if kf:
+            known_lines.append('KNOWN-FINDING: property=%s %s [%s; %s]' % (prop, kf[0]['description'], kf[0]['id'], str((d.get('violation') or {}).get('detail'))[:300]))
+        else:
+            remaining.append(d)
+    direct_violations = remaining
     for d in direct_violations:
         h = hashlib.sha1(json.dumps([d['name'], d['violation']], sort_keys=True, default=str).encode()).hexdigest()[:10]
         rp = os.path.join(VERIF, 'replays', '%s-%s.json' % (prop, h))
